@@ -38,6 +38,24 @@ class C05(Prop):
         if r < 0.08 and typ == "BoundingBox":
             c = g["coordinates"]
             c[2] = c[0]
+        elif r < 0.3 and typ == "BoundingBox":
+            # corners given in any order (the constructor normalises them), also when one axis is degenerate
+            c = g["coordinates"]
+            if rng.random() < 0.5:
+                c[0], c[2] = c[2], c[0]
+            if rng.random() < 0.5:
+                c[1], c[3] = c[3], c[1]
+            k = rng.random()
+            if k < 0.25:
+                c[2] = c[0]
+            elif k < 0.5:
+                c[3] = c[1]
+        elif r < 0.2 and typ in ("Polygon", "MultiPolygon"):
+            # bounds are about coordinates, not topology: self-crossing outlines (bowtie / hourglass) count too
+            a, f = Fraction(rng.randint(0, 8)), Fraction(rng.randint(0, 40))
+            w, h = Fraction(rng.randint(1, 6)), Fraction(rng.randint(1, 20))
+            ring = [[a, f], [a + w, f + h], [a + w, f], [a, f + h], [a, f]]
+            g["coordinates"] = [ring] if typ == "Polygon" else [[ring]]
         elif r < 0.08 and typ == "TimeInterval":
             g["coordinates"][1] = g["coordinates"][0]
         elif r < 0.08 and typ in ("LineString", "MultiPoint"):
